@@ -41,6 +41,9 @@ MUTATIONS = [
      "\t\t\tstdout, err := os.OpenFile(rw.StdoutFileName(), os.O_CREATE+os.O_APPEND+os.O_WRONLY, 0o600)",
      "\t\t\tstdout, err := os.OpenFile(rw.StdoutFileName(), os.O_CREATE+os.O_WRONLY, 0o600)", "remote", []),
     ("mirror_done_without_size_check", RW, "if IsComplete(status.State) && diskStdoutSize >= remoteStdoutSize {", "if IsComplete(status.State) {", "remote", []),
+    ("mirror_copies_from_raw_conn", RW, "io.Copy(stdout, reader)", "io.Copy(stdout, conn)", "remote", []),
+    ("complete_not_monitored_at_restart", RW, "\tgo func() {\n\t\trw.monitorRemoteUnit(rw.topJC, false)\n",
+     "\tif IsComplete(rw.Status().State) {\n\t\trw.topJC.WorkerDone()\n\n\t\treturn nil\n\t}\n\tgo func() {\n\t\trw.monitorRemoteUnit(rw.topJC, false)\n", "remote", []),
     ("mirror_stale_disk_size", RW, "\t\tdiskStdoutSize := stdoutSize(rw.UnitDir())\n", "\t\tdiskStdoutSize := stdoutSize(rw.UnitDir()) / 2\n", "remote", []),
 ]
 
